@@ -1409,9 +1409,23 @@ impl ReaderState {
         let mut buf = Vec::new();
         let content = match reader.read_to_end_into(end.name(), &mut buf) {
             Ok(span) => {
-                let r = self.content[(span.start as usize)..(span.end as usize)]
-                    .trim()
-                    .to_string();
+                let raw = self.content[(span.start as usize)..(span.end as usize)].trim();
+                // Character data: a CDATA section is taken literally, entity references in plain text are resolved.
+                // Content with child elements (e.g. inline SCXML) is kept as it is.
+                let r = if let Some(cdata) = raw
+                    .strip_prefix("<![CDATA[")
+                    .and_then(|x| x.strip_suffix("]]>"))
+                    .filter(|x| !x.contains("]]>"))
+                {
+                    cdata.to_string()
+                } else if !raw.contains('<') {
+                    match quick_xml::escape::unescape(raw) {
+                        Ok(text) => text.into_owned(),
+                        Err(_) => raw.to_string(),
+                    }
+                } else {
+                    raw.to_string()
+                };
                 #[cfg(feature = "Debug_Reader")]
                 debug!("{} content {} - {}: {}", tag, span.start, span.end, r);
                 r
